@@ -161,7 +161,14 @@ class Prop(object):
             return 'rejected'
         want = rsig.hash_input(0x00, 22, 8, hashed, {'doc': DOC})
         import copy as _copy
-        for who, obj in (('parsed signature', s), ('copy of the parsed signature', _copy.copy(s))):
+        try:
+            deep = _copy.deepcopy(s)
+        except Exception as e:
+            deep = None
+        for who, obj in (('parsed signature', s), ('copy of the parsed signature', _copy.copy(s)), ('copy of the parsed signature, made with copy.deepcopy', deep)):
+            if obj is None:
+                r.outcomes['deepcopy-not-supported'] += 1
+                continue
             try:
                 got = obj.hashdata(DOC)
                 same = bytes(got) == want
@@ -172,7 +179,7 @@ class Prop(object):
             r.transitions += 1
             if not same:
                 r.outcomes['accepted:hashdata-differs'] += 1
-                r.viol('hashdata', dict(tags, what='hashdata', through='copy' if who.startswith('copy') else 'parsed'), case,
+                r.viol('hashdata', dict(tags, what='hashdata', through='deepcopy' if 'deepcopy' in who else 'copy' if who.startswith('copy') else 'parsed'), case,
                        '%s: %s: octets fed to the hash differ from the received hashed region' % (label, who))
                 return 'bad'
         try:
